@@ -2,8 +2,13 @@ use crate::prop::PropDef;
 
 pub mod c01;
 pub mod c02;
+pub mod c03;
+pub mod c04;
+pub mod c06;
+pub mod c07;
+pub mod c09;
 pub mod c05;
 
 pub fn all() -> Vec<&'static PropDef> {
-    vec![&c01::DEF, &c02::DEF, &c05::DEF]
+    vec![&c01::DEF, &c02::DEF, &c03::DEF, &c04::DEF, &c06::DEF, &c07::DEF, &c09::DEF, &c05::DEF]
 }
